@@ -49,26 +49,6 @@ theorem Written.snapOk {P : List Entry → Prop} {t : List Leaf} (h : Written P 
   obtain ⟨es, _, _, rfl⟩ := h
   exact Trie.snapOk_build es
 
-theorem mem_foldl_insRepl_sub (l acc : List Phrase) {x : Phrase} (h : x ∈ l.foldl Trie.insRepl acc) : x ∈ acc ∨ x ∈ l := by
-  induction l generalizing acc with
-  | nil => exact Or.inl h
-  | cons p l ih =>
-    rcases ih _ h with h1 | h1
-    · rcases Trie.mem_insRepl.mp h1 with e | e
-      · exact Or.inr (by rw [e]; exact List.mem_cons_self)
-      · exact Or.inl e.1
-    · exact Or.inr (List.mem_cons_of_mem _ h1)
-
-theorem mem_leafOf {es : List Entry} {k : List Nat} {p : Phrase} (h : p ∈ Trie.leafOf es k) : (k, p) ∈ es := by
-  unfold Trie.leafOf at h
-  rcases mem_foldl_insRepl_sub _ _ h with h1 | h1
-  · cases h1
-  · obtain ⟨e, he, rfl⟩ := List.mem_map.mp h1
-    rw [List.mem_filter] at he
-    have : e.1 = k := by simpa using he.2
-    rw [← this]
-    exact he.1
-
 /-- what a written file enumerates is valid -/
 theorem Written.entries_valid {P : List Entry → Prop} {t : List Leaf} (h : Written P t) :
     ∀ e ∈ Trie.entries t, TrieCodec.ValidEntry e := by
@@ -78,7 +58,7 @@ theorem Written.entries_valid {P : List Entry → Prop} {t : List Leaf} (h : Wri
   unfold Trie.build at hl
   obtain ⟨k, _, rfl⟩ := List.mem_map.mp hl
   simp only at e1 hp
-  have := mem_leafOf ((mem_isort _).mp hp)
+  have := TrieLink.mem_leafOf ((mem_isort _).mp hp)
   have hv' := hv _ this
   rw [e1] at hv'
   exact hv'
